@@ -421,6 +421,39 @@ def _yield_sink(fr, body):
     return f.yield_sink if f is not None else None
 
 
+def _append_loop(eng, s, fr, seqv):
+    """the idiom   for x in S: [if c(x):] L.append(e(x))   over a symbolic-length S without a loop contract is the statement
+    L.extend(e(x) for x in S [if c(x)])  (same elements, same order; c and e must not mention L).  Returns True when it applied."""
+    if s.orelse or not isinstance(s.target, ast.Name) or len(s.body) != 1 or eng.spec_mode:
+        return False
+    st, test = s.body[0], None
+    if isinstance(st, ast.If) and not st.orelse and len(st.body) == 1:
+        st, test = st.body[0], st.test
+    if not (isinstance(st, ast.Expr) and isinstance(st.value, ast.Call) and isinstance(st.value.func, ast.Attribute) and st.value.func.attr == "append"
+            and isinstance(st.value.func.value, ast.Name) and len(st.value.args) == 1 and not st.value.keywords):
+        return False
+    lname, elt = st.value.func.value.id, st.value.args[0]
+    for part in [elt] + ([test] if test is not None else []):
+        if any(isinstance(x, ast.Name) and x.id == lname for x in ast.walk(part)) or any(isinstance(x, (ast.NamedExpr, ast.Yield, ast.YieldFrom, ast.Await)) for x in ast.walk(part)):
+            return False
+    later = False  # the loop variable keeps its last value after a real loop: refuse when it is read afterwards
+    for x in ast.walk(fr.func.node) if fr.func is not None else ():
+        if isinstance(x, ast.Name) and x.id == s.target.id and isinstance(x.ctx, ast.Load) and getattr(x, "lineno", 0) > getattr(s, "end_lineno", 0):
+            later = True
+    if later:
+        return False
+    lst = fr.lookup(lname)
+    if not isinstance(lst, PList):
+        return False
+    gen = ast.GeneratorExp(elt=elt, generators=[ast.comprehension(target=ast.Name(id=s.target.id, ctx=ast.Store()), iter=s.iter,
+                                                                  ifs=[test] if test is not None else [], is_async=0)])
+    ast.copy_location(gen, s)
+    ast.fix_missing_locations(gen)
+    val = eng.models.comprehension_over(eng, gen, fr, "gen", seqv)
+    eng.models.LIST_METHODS["extend"](eng, lst, [val], {})
+    return True
+
+
 def exec_for(eng, s, fr):
     spec, o = loop_spec(eng, fr, s)
     seqv = eng.ev(s.iter, fr)
@@ -428,6 +461,8 @@ def exec_for(eng, s, fr):
         try:
             items = eng.models.iterate_concrete(eng, seqv)
         except Unsupported as e:
+            if _append_loop(eng, s, fr, seqv):
+                return
             raise Unsupported(f"for loop #{o} in {_fn_label(eng, fr)} iterates a symbolic sequence and has no invariant ({e})")
         for x in items:
             eng.assign(s.target, x, fr)
